@@ -296,6 +296,229 @@ needs `'"' ∉ rest`) -/
 example : lineTokens 1 (splitLine 99 "\"a\\\" \"b\"".toList)
     = [⟨"LITERAL_STRING", "a\" ", 1⟩, ⟨"NAME", "b", 1⟩, ⟨"ERROR", "\"", 1⟩] := by decide +kernel
 
+/-! ## 5. A `#` match cuts the line -/
+
+/-- In the list of matches of a line, everything from a `#` match on is dropped: the tokens
+are those of the matches before it.  (`#` is the only match that cuts: `unabbreviate_eq_hash`.) -/
+theorem C16_comment_cut (n : Nat) (xs ys : List (List Char)) :
+    lineTokens n (xs ++ ['#'] :: ys) = lineTokens n xs :=
+  lineTokens_cut n xs ys ['#'] rfl
+
+/-- … and before the first `#` match nothing is lost: one token per match, in order -/
+theorem C16_no_comment_no_cut (n : Nat) (xs ys : List (List Char)) (h : ['#'] ∉ xs) :
+    lineTokens n (xs ++ ys) = lineTokens n xs ++ lineTokens n ys ∧
+    (lineTokens n xs).length = xs.length :=
+  lineTokens_append n xs ys h
+
+/-! ## 4. The amount and kind of white space between tokens does not matter -/
+
+/-- For `a` free of double quotes and any NON-EMPTY white space `ws` (blanks, tabs, …), the
+matches of `a ++ ws ++ b` are the matches of `a` followed by the matches of `b`: tokens never
+join across white space, nothing of `ws` becomes a token, and what follows the white space is
+lexed as if it stood alone.  All fuels that are at least the length of the text are equal
+(`Lex.tokens` uses `length + 1`).
+
+Quote-freeness of `a` is what is needed of `a` in general: every scanner except the
+string-literal one looks at most one character past its match and stops at white space, while
+a `"` left open in `a` would swallow `ws` (strings are covered by `C16_layout_invariant`). -/
+theorem C16_whitespace_insensitive (a b ws : List Char) (f f₁ f₂ : Nat)
+    (ha : '"' ∉ a) (hne : ws ≠ []) (hws : ws.all isWs = true)
+    (hf : (a ++ ws ++ b).length ≤ f) (hf₁ : a.length ≤ f₁) (hf₂ : b.length ≤ f₂) :
+    splitLine f (a ++ ws ++ b) = splitLine f₁ a ++ splitLine f₂ b := by
+  rw [splitLine_append_ws f a ws b ha hne hws hf,
+    splitLine_fuel f₁ a.length a hf₁ (Nat.le_refl _), splitLine_fuel f₂ b.length b hf₂ (Nat.le_refl _)]
+
+/-- any white space is as good as one blank -/
+theorem C16_whitespace_kind (a b ws : List Char) (f f' : Nat)
+    (ha : '"' ∉ a) (hne : ws ≠ []) (hws : ws.all isWs = true)
+    (hf : (a ++ ws ++ b).length ≤ f) (hf' : (a ++ [' '] ++ b).length ≤ f') :
+    splitLine f (a ++ ws ++ b) = splitLine f' (a ++ [' '] ++ b) := by
+  rw [splitLine_append_ws f a ws b ha hne hws hf,
+    splitLine_append_ws f' a [' '] b ha (by simp) (by decide) hf']
+
+/-- leading white space (indentation) does nothing -/
+theorem C16_leading_whitespace (b ws : List Char) (f f' : Nat) (hws : ws.all isWs = true)
+    (hf : (ws ++ b).length ≤ f) (hf' : b.length ≤ f') :
+    splitLine f (ws ++ b) = splitLine f' b := by
+  simp only [List.length_append] at hf
+  have : f = (f - ws.length) + ws.length := by omega
+  rw [this, splitLine_ws_list _ _ _ hws]
+  exact splitLine_fuel _ _ _ (by omega) hf'
+
+/-- trailing white space does nothing -/
+theorem C16_trailing_whitespace (a ws : List Char) (f f' : Nat) (ha : '"' ∉ a)
+    (hws : ws.all isWs = true) (hf : (a ++ ws).length ≤ f) (hf' : a.length ≤ f') :
+    splitLine f (a ++ ws) = splitLine f' a := by
+  cases ws with
+  | nil => simp only [List.append_nil] at hf ⊢; exact splitLine_fuel _ _ _ hf hf'
+  | cons w ws =>
+    have := C16_whitespace_insensitive a [] (w :: ws) f f' 0 ha (by simp) hws (by simpa using hf)
+      hf' (by simp)
+    simpa [splitLine_nil] using this
+
+/-- a comment after white space: the line lexes as if it ended before the white space -/
+theorem C16_comment_after_ws (n : Nat) (a ws b : List Char) (f f' : Nat)
+    (ha : '"' ∉ a) (hne : ws ≠ []) (hws : ws.all isWs = true)
+    (hf : (a ++ ws ++ '#' :: b).length ≤ f) (hf' : a.length ≤ f') :
+    lineTokens n (splitLine f (a ++ ws ++ '#' :: b)) = lineTokens n (splitLine f' a) := by
+  rw [C16_whitespace_insensitive a ('#' :: b) ws f f' (b.length + 1) ha hne hws hf hf' (by simp),
+    splitLine_hash, C16_comment_cut]
+
+/-- a whole-line comment (possibly indented) gives no tokens -/
+theorem C16_comment_line (n : Nat) (ws b : List Char) (f : Nat) (hws : ws.all isWs = true)
+    (hf : (ws ++ '#' :: b).length ≤ f) :
+    lineTokens n (splitLine f (ws ++ '#' :: b)) = [] := by
+  rw [C16_leading_whitespace ('#' :: b) ws f (b.length + 1) hws hf (by simp), splitLine_hash]
+  rfl
+
+/-- Tokens never join across white space: without a comment in `a`, the tokens of
+`a ++ ws ++ b` are the tokens of `a` followed by the tokens of `b`. -/
+theorem C16_tokens_never_join (n : Nat) (a b ws : List Char) (f f₁ f₂ : Nat)
+    (ha : '"' ∉ a) (hne : ws ≠ []) (hws : ws.all isWs = true)
+    (hf : (a ++ ws ++ b).length ≤ f) (hf₁ : a.length ≤ f₁) (hf₂ : b.length ≤ f₂)
+    (hc : ['#'] ∉ splitLine f₁ a) :
+    lineTokens n (splitLine f (a ++ ws ++ b))
+      = lineTokens n (splitLine f₁ a) ++ lineTokens n (splitLine f₂ b) := by
+  rw [C16_whitespace_insensitive a b ws f f₁ f₂ ha hne hws hf hf₁ hf₂]
+  exact (lineTokens_append n _ _ hc).1
+
+/-- A line break is as good as a blank (up to the line numbers stored in the tokens): two
+lines, the first without a comment, lex to the same (type, content) sequence as the two
+joined by a blank. -/
+theorem C16_linebreak_as_blank (n : Nat) (l₁ l₂ : List Char) (h₁ : '"' ∉ l₁)
+    (hc : ['#'] ∉ splitLine (l₁.length + 1) l₁) :
+    (lineTokens n (splitLine ((l₁ ++ [' '] ++ l₂).length + 1) (l₁ ++ [' '] ++ l₂))).map
+        (fun t => (t.type, t.content))
+      = (lineTokens n (splitLine (l₁.length + 1) l₁) ++
+          lineTokens (n + 1) (splitLine (l₂.length + 1) l₂)).map (fun t => (t.type, t.content)) := by
+  rw [C16_tokens_never_join n l₁ l₂ [' '] _ (l₁.length + 1) (l₂.length + 1) h₁ (by simp)
+    (by decide) (Nat.le_succ _) (Nat.le_succ _) (Nat.le_succ _) hc]
+  simp only [List.map_append]
+  rw [lineTokens_line n (n + 1) (splitLine (l₂.length + 1) l₂)]
+
+/-! ### whole lines: pieces and separators -/
+
+/-- a piece of a line: text free of double quotes, or a string literal with its content -/
+inductive Word where
+  | plain (a : List Char)
+  | str (cs : List Char)
+
+def Word.text : Word → List Char
+  | .plain a => a
+  | .str cs => '"' :: (cs ++ ['"'])
+
+/-- plain text has no `"`; a string content has neither `"` nor `\` -/
+def Word.ok : Word → Prop
+  | .plain a => '"' ∉ a
+  | .str cs => '"' ∉ cs ∧ '\\' ∉ cs
+
+/-- the matches a piece gives when it stands alone -/
+def Word.matches : Word → List (List Char)
+  | .plain a => splitLine a.length a
+  | .str cs => ['"' :: (cs ++ ['"'])]
+
+/-- a line laid out as pieces, each followed by its separator -/
+def layout (ps : List (Word × List Char)) : List Char := (ps.map fun p => p.1.text ++ p.2).flatten
+
+/-- Layout invariance of the match list: a line made of pieces (quote-free text and simple
+string literals), each followed by ANY non-empty white space, has the matches of its pieces, in
+order — independent of the separators.  `b` is whatever follows (e.g. nothing, or a comment). -/
+theorem C16_layout_invariant (ps : List (Word × List Char)) (b : List Char) (f : Nat)
+    (h : ∀ p ∈ ps, p.1.ok ∧ p.2 ≠ [] ∧ p.2.all isWs = true)
+    (hf : (layout ps ++ b).length ≤ f) :
+    splitLine f (layout ps ++ b) = (ps.map fun p => p.1.matches).flatten ++ splitLine b.length b := by
+  induction ps generalizing f with
+  | nil => simp only [layout, List.map_nil, List.flatten_nil, List.nil_append] at hf ⊢
+           exact splitLine_fuel _ _ _ hf (Nat.le_refl _)
+  | cons p ps ih =>
+    obtain ⟨hok, hne, hws⟩ := h p (List.mem_cons_self)
+    have hrest : ∀ q ∈ ps, q.1.ok ∧ q.2 ≠ [] ∧ q.2.all isWs = true :=
+      fun q hq => h q (List.mem_cons_of_mem _ hq)
+    obtain ⟨w, sep⟩ := p
+    simp only at hok hne hws
+    have hlay : layout ((w, sep) :: ps) ++ b = w.text ++ sep ++ (layout ps ++ b) := by
+      simp [layout]
+    have hm : (((w, sep) :: ps).map fun p => p.1.matches).flatten ++ splitLine b.length b
+        = w.matches ++ ((ps.map fun p => p.1.matches).flatten ++ splitLine b.length b) := by simp
+    rw [hlay] at hf ⊢
+    rw [hm]
+    cases w with
+    | plain a =>
+      change splitLine f (a ++ sep ++ (layout ps ++ b)) = splitLine a.length a ++ _
+      rw [splitLine_append_ws f a sep _ hok hne hws hf, ih _ hrest (Nat.le_refl _)]
+    | str cs =>
+      change splitLine f ('"' :: (cs ++ ['"']) ++ sep ++ (layout ps ++ b))
+        = ['"' :: (cs ++ ['"'])] ++ _
+      change ('"' :: (cs ++ ['"']) ++ sep ++ (layout ps ++ b)).length ≤ f at hf
+      have e : '"' :: (cs ++ ['"']) ++ sep ++ (layout ps ++ b)
+          = '"' :: (cs ++ '"' :: (sep ++ (layout ps ++ b))) := by simp
+      rw [e] at hf ⊢
+      simp only [List.length_cons, List.length_append] at hf
+      obtain ⟨f', rfl⟩ : ∃ f', f = f' + 1 := ⟨f - 1, by omega⟩
+      rw [splitLine_string f' cs _ (scanStringBody_simple '"' cs _ hok.1 hok.2 (by decide))]
+      have : f' = (f' - sep.length) + sep.length := by omega
+      rw [this, splitLine_ws_list _ _ _ hws, ih _ hrest (by simp only [List.length_append]; omega)]
+      rfl
+
+/-- … so two layouts of the same pieces have the same matches, hence the same tokens -/
+theorem C16_relayout (ps qs : List (Word × List Char)) (n f g : Nat)
+    (hp : ∀ p ∈ ps, p.1.ok ∧ p.2 ≠ [] ∧ p.2.all isWs = true)
+    (hq : ∀ p ∈ qs, p.1.ok ∧ p.2 ≠ [] ∧ p.2.all isWs = true)
+    (hsame : ps.map (·.1) = qs.map (·.1))
+    (hf : (layout ps).length ≤ f) (hg : (layout qs).length ≤ g) :
+    lineTokens n (splitLine f (layout ps)) = lineTokens n (splitLine g (layout qs)) := by
+  have e1 := C16_layout_invariant ps [] f hp (by simpa using hf)
+  have e2 := C16_layout_invariant qs [] g hq (by simpa using hg)
+  simp only [List.append_nil] at e1 e2
+  have hm : (ps.map fun p => p.1.matches) = (qs.map fun p => p.1.matches) := by
+    have := congrArg (List.map Word.matches) hsame
+    rw [List.map_map, List.map_map] at this
+    exact this
+  rw [e1, e2, hm]
+
+/-! ### non-vacuity -/
+
+example : splitLine 99 "set\t \thue   120".toList = splitLine 99 "set hue 120".toList := by
+  decide +kernel
+example : splitLine 99 "set\t \thue   120".toList
+    = [['s', 'e', 't'], ['h', 'u', 'e'], ['1', '2', '0']] := by decide +kernel
+/-- the theorem applied: `a = "if x"`, `ws = "\t\t "`, `b = ">= 5 {"` -/
+example : splitLine 99 ("if x".toList ++ "\t\t ".toList ++ ">= 5 {".toList)
+    = splitLine 9 "if x".toList ++ splitLine 9 ">= 5 {".toList :=
+  C16_whitespace_insensitive _ _ _ 99 9 9 (by decide) (by decide) (by decide) (by decide)
+    (by decide) (by decide)
+example : lineTokens 1 (splitLine 99 "  on all \t# switch \"everything\" on".toList)
+    = [⟨"ON", "on", 1⟩, ⟨"ALL", "all", 1⟩] := by decide +kernel
+example : lineTokens 1 (splitLine 99 "\t # only a comment".toList) = [] :=
+  C16_comment_line 1 "\t ".toList " only a comment".toList 99 (by decide) (by decide)
+/-- operators, braces and brackets need no white space (one instance; `5%3` failed on the
+pinned tree) -/
+example : lineTokens 1 (splitLine 99 "{5%3}".toList)
+    = lineTokens 1 (splitLine 99 "{ 5 % 3 }".toList) := by decide +kernel
+/-- a `#` directly after a default-class character is NOT a comment (`[^\s]+` takes it): the
+white space in `C16_comment_after_ws` matters only there — after names, numbers and
+punctuation a `#` cuts at once -/
+example : lineTokens 1 (splitLine 99 "@#x".toList) = [⟨"ERROR", "@#x", 1⟩] ∧
+    lineTokens 1 (splitLine 99 "on#x".toList) = [⟨"ON", "on", 1⟩] := by decide +kernel
+/-- `C16_layout_invariant` applied to `define x "a # b"` with three different separators -/
+example :
+    let ps : List (Word × List Char) :=
+      [(.plain "define".toList, " \t".toList), (.plain "x".toList, "\t".toList),
+       (.str "a # b".toList, "  ".toList)]
+    layout ps = "define \tx\t\"a # b\"  ".toList ∧
+    splitLine 99 (layout ps ++ []) = ["define".toList, "x".toList, "\"a # b\"".toList] := by
+  intro ps
+  refine ⟨by decide, ?_⟩
+  rw [C16_layout_invariant ps [] 99 (by
+      intro p hp
+      simp only [ps, List.mem_cons, List.not_mem_nil, or_false] at hp
+      rcases hp with rfl | rfl | rfl
+      · exact ⟨by simp [Word.ok], by decide, by decide⟩
+      · exact ⟨by simp [Word.ok], by decide, by decide⟩
+      · exact ⟨by simp [Word.ok], by decide, by decide⟩)
+    (by decide)]
+  decide +kernel
+
 end Bardolph.Lex
 
 /-! ## 7. The two peephole equivalences behind "braces round a single value change nothing"
